@@ -390,7 +390,7 @@ def alternatives_with_facts(F, X, e, depth=3, keep=(), with_cmp=False):
     return [(a, vf) for a, vf, cf in out]
 
 
-PAYLOAD_VARIANTS = {"Ok": ("Ok",), "Some": ("Some",), "Continue": ("Ok", "Some"), "Ready": ("Ready",)}
+PAYLOAD_VARIANTS = {"Ok": ("Ok",), "Some": ("Some",), "Continue": ("Ok", "Some"), "Ready": ("Ready",), "Err": ("Err",)}
 
 
 def def_alternatives(F, X, body, op, depth=4, want=None, keep=(), _seen=None, _file=None):
